@@ -1,6 +1,7 @@
 import Amgcl.Proofs.SolverBiCGStabLeft
 import Amgcl.Proofs.KrylovGMRESOuter
 import Amgcl.Proofs.KrylovFGMRESRestart
+import Amgcl.Proofs.KrylovGMRESZero
 import Amgcl.Proofs.KrylovGMRESRestartExample
 import Mathlib.Algebra.Order.Field.Rat
 /-!
@@ -17,7 +18,8 @@ import Mathlib.Algebra.Order.Field.Rat
 * `gmres_cycle_monotone`: one restart cycle of the model — whatever its pass count, breakdown or not — does not increase the
   squared norm of the measured residual `Rf x` (`f − A x` right, `P(f − A x)` left).
 * `gmres_restart_monotone`: the call returns a member `x⁽ᵏ⁾` of the sequence of restart states, and
-  `‖Rf x⁽ʲ⁾‖² ≤ ‖Rf x⁽ⁱ⁾‖²` for `i ≤ j ≤ k`; in particular `‖Rf x‖² ≤ ‖Rf x₀‖²` for the returned `x`
+  `‖Rf x⁽ʲ⁾‖² ≤ ‖Rf x⁽ⁱ⁾‖²` for `i ≤ j ≤ k`, for every threshold `eps ≥ 0` (with `eps = 0` a cycle can be entered with
+  `norm_r = 0`; it does not move `x`); in particular `‖Rf x‖² ≤ ‖Rf x₀‖²` for the returned `x`
   (`gmres_restart_monotone_call`), and the reported `norm_r` does not increase either (`gmres_restart_monotone_norm`).
 * `gmres_breakdown_exact`: when the Arnoldi process breaks down in the last pass of a cycle and the preconditioned operator
   `A Pl` / `Pl A` is injective, the iterate the cycle returns has measured residual EXACTLY zero, the true residual `f − A x` is
@@ -206,14 +208,16 @@ theorem gmres_cycle_monotone (prm : GMRES.Params K) (hside : prm.pside = side) (
   cycle_monotone n A hA hn hm P Pl hP side sqrt f st hst prm hside epsT heps hroots
 
 /-- **the restarted sequence as a whole is monotone.**  A call that does not return early returns the state
-`outerPass … init k` after `k ≤ maxiter` restart cycles, `k` the first index whose stopping test succeeds; and for a positive
-threshold and exact roots in the cycles made, the squared norms of the measured residuals at the restarts are
-non-increasing: `‖Rf x⁽ʲ⁾‖² ≤ ‖Rf x⁽ⁱ⁾‖²` for `i ≤ j ≤ k`. -/
+`outerPass … init k` after `k ≤ maxiter` restart cycles, `k` the first index whose stopping test succeeds; and for a
+threshold that is NOT NEGATIVE and exact roots in the cycles made, the squared norms of the measured residuals at the
+restarts are non-increasing: `‖Rf x⁽ʲ⁾‖² ≤ ‖Rf x⁽ⁱ⁾‖²` for `i ≤ j ≤ k`.  (A cycle entered with `norm_r = 0` — possible for
+`eps = 0` only — does not move `x`: `Proofs/KrylovGMRESZero.lean`; no root hypothesis is needed for such a cycle.) -/
 theorem gmres_restart_monotone (prm : GMRES.Params K) (hside : prm.pside = side) (eps : K) (ws : GMRES.Work K)
-    (x0 : Vec K) (nf : K) (hp : prologueA prm.nsSearch stdIp sqrt eps f = .go nf) (heps : 0 < GMRES.epsTol prm nf)
+    (x0 : Vec K) (nf : K) (hp : prologueA prm.nsSearch stdIp sqrt eps f = .go nf) (heps : ¬ GMRES.epsTol prm nf < 0)
     (hroots : ∀ i, i < prm.maxiter →
       GMRES.stop prm.maxiter (GMRES.epsTol prm nf)
         (outerPass prm sqrt A P f (GMRES.epsTol prm nf) (GMRES.init prm stdIp sqrt A P ws f x0) i) = false →
+      (outerPass prm sqrt A P f (GMRES.epsTol prm nf) (GMRES.init prm stdIp sqrt A P ws f x0) i).normR ≠ 0 →
       RootsExact side sqrt A P (outerPass prm sqrt A P f (GMRES.epsTol prm nf) (GMRES.init prm stdIp sqrt A P ws f x0) i)
         (GMRES.inner prm stdIp sqrt A P (GMRES.epsTol prm nf)
           (outerPass prm sqrt A P f (GMRES.epsTol prm nf) (GMRES.init prm stdIp sqrt A P ws f x0) i)).j) :
@@ -238,18 +242,18 @@ theorem gmres_restart_monotone (prm : GMRES.Params K) (hside : prm.pside = side)
   obtain ⟨k, hk, hfin, hstop, _⟩ := final_eq_outerPass prm sqrt A P ws f x0 nf
   refine ⟨k, hk, ?_, hstop, fun i j hij hj => ?_⟩
   · rw [GMRES.run_go _ _ _ _ _ _ _ _ _ nf hp, hfin]
-  · exact outerPass_antitone n A hA hn hm P Pl hP prm sqrt f _ heps _ (GMRES.head_inv _ _ _ _ _ _ _) k hstop
-      (fun i hi => hroots i (by omega) (hstop i hi)) i j hij hj
+  · exact outerPass_antitone' n A hA hn hm P Pl hP prm sqrt f _ heps _ (GMRES.head_inv _ _ _ _ _ _ _) k
+      (fun i hi hne => hroots i (by omega) (hstop i hi) hne) i j hij hj
 
 /-- … in particular the `x` a call returns has `‖Rf x‖² ≤ ‖Rf x₀‖²`; stated with the global root hypothesis `hsqrt`. -/
 theorem gmres_restart_monotone_call (prm : GMRES.Params K) (hside : prm.pside = side) (eps : K) (ws : GMRES.Work K)
-    (x0 : Vec K) (nf : K) (hp : prologueA prm.nsSearch stdIp sqrt eps f = .go nf) (heps : 0 < GMRES.epsTol prm nf)
+    (x0 : Vec K) (nf : K) (hp : prologueA prm.nsSearch stdIp sqrt eps f = .go nf) (heps : ¬ GMRES.epsTol prm nf < 0)
     (hsqrt : ∀ x, 0 ≤ x → sqrt x * sqrt x = x)
     (it : ℕ) (res : K) (x : Vec K) (w : GMRES.Work K)
     (h : GMRES.solve prm stdIp sqrt eps A P ws f x0 = .ok (it, res, x, w)) :
     stdIp (GMRES.Rf side P f A x) (GMRES.Rf side P f A x) ≤ stdIp (GMRES.Rf side P f A x0) (GMRES.Rf side P f A x0) := by
   obtain ⟨k, _, hrun, _, hmono⟩ := gmres_restart_monotone n A hA hn hm P Pl hP side sqrt f prm hside eps ws x0 nf hp heps
-    (fun i _ _ => rootsExact_of_hsqrt side sqrt hsqrt A P _ _)
+    (fun i _ _ _ => rootsExact_of_hsqrt side sqrt hsqrt A P _ _)
   rw [GMRES.solve, hrun] at h
   simp only [Run.toExcept, Except.ok.injEq, Prod.mk.injEq] at h
   have h0 := hmono 0 k (Nat.zero_le k) (Nat.le_refl k)
@@ -341,6 +345,13 @@ example : (GMRES.cycle prmb stdIp Amgcl.rsqrt Ab Pg (1/4) stb).x = #[25/3, -20/3
       | .ok (it, res, x, _) => decide (it = 2 ∧ res = 0 ∧ x = #[25/3, -20/3, 0] ∧ residual fg Ab x = vclear 3)
       | _ => false) = true := by decide +kernel
 
+/-- the case `eps = 0` of `gmres_restart_monotone` (a cycle entered with `norm_r = 0`) occurs: with `tol = 0` the call does not
+stop at the exact solution (`0 < 0` is false) but keeps cycling on the zero residual until `maxiter = 5`, and `x` stays the
+exact solution -/
+example : (match GMRES.solve { prmb with tol := 0 } stdIp Amgcl.rsqrt 0 Ab Pg (GMRES.Work.fresh 3) fg xg with
+      | .ok (it, res, x, _) => decide (it = 5 ∧ res = 0 ∧ x = #[25/3, -20/3, 0])
+      | _ => false) = true := by decide +kernel
+
 /-- `gmres_breakdown_ends_cycle` is not vacuous here: pass `1` has `H̃(2,1) = 0`, and indeed `s₂ = 0`, `inner_res = 0` -/
 example : (innerPass .right Amgcl.rsqrt Ab Pg stb 2).w.h.s.get 2 = 0 ∧ (innerPass .right Amgcl.rsqrt Ab Pg stb 2).innerRes = 0 :=
   let h := (gmres_breakdown_ends_cycle prmb Amgcl.rsqrt Ab Pg stb).1 1 hbb
@@ -377,7 +388,7 @@ example : ∃ k, k ≤ 2 ∧
           (GMRES.Rf .right Pg fr Ar (outerPass prmr Amgcl.rsqrt Ar Pg fr (GMRES.epsTol prmr 5) str i).x) := by
   obtain ⟨k, hk, _, hstop, hmono⟩ := gmres_restart_monotone 2 Ar hAr rfl rfl Pg LinearMap.id hPr .right Amgcl.rsqrt fr prmr rfl
     0 (GMRES.Work.fresh 2) xr 5 hpr (by rw [hepsr]; decide +kernel)
-    (fun i hi _ => by rw [hepsr]; exact hrootsr i hi)
+    (fun i hi _ _ => by rw [hepsr]; exact hrootsr i hi)
   exact ⟨k, hk, hstop, hmono⟩
 
 /-- the numbers, evaluated independently by the kernel: the call makes two cycles (`k = 2`), and the squared residual norms at
@@ -418,10 +429,11 @@ theorem fgmres_cycle_monotone (prm : FGMRES.Params K) (epsT : K) (heps : ¬ epsT
 stopping test succeeds, and `‖f − A x⁽ʲ⁾‖² ≤ ‖f − A x⁽ⁱ⁾‖²` for `i ≤ j ≤ k`. -/
 theorem fgmres_restart_monotone (prm : FGMRES.Params K) (eps : K) (ws : FGMRES.Work K)
     (x0 : Vec K) (hx0 : x0.size = n) (nf : K) (hp : prologueA prm.nsSearch stdIp sqrt eps f = .go nf)
-    (heps : 0 < FGMRES.epsTol prm nf)
+    (heps : ¬ FGMRES.epsTol prm nf < 0)
     (hroots : ∀ i, i < prm.maxiter →
       FGMRES.stop prm.maxiter (FGMRES.epsTol prm nf)
         (fouterPass prm sqrt A P f (FGMRES.epsTol prm nf) (FGMRES.init stdIp sqrt A ws f x0) i) = false →
+      (fouterPass prm sqrt A P f (FGMRES.epsTol prm nf) (FGMRES.init stdIp sqrt A ws f x0) i).normR ≠ 0 →
       RootsExact .right sqrt A P (toG (fouterPass prm sqrt A P f (FGMRES.epsTol prm nf) (FGMRES.init stdIp sqrt A ws f x0) i))
         (FGMRES.inner prm stdIp sqrt A P (FGMRES.epsTol prm nf)
           (fouterPass prm sqrt A P f (FGMRES.epsTol prm nf) (FGMRES.init stdIp sqrt A ws f x0) i)).j) :
@@ -441,18 +453,18 @@ theorem fgmres_restart_monotone (prm : FGMRES.Params K) (eps : K) (ws : FGMRES.W
   obtain ⟨k, hk, hfin, hstop, _⟩ := ffinal_eq_outerPass prm sqrt A P ws f x0 nf
   refine ⟨k, hk, ?_, hstop, fun i j hij hj => ?_⟩
   · rw [FGMRES.run_go _ _ _ _ _ _ _ _ _ nf hp, hfin]
-  · exact fouterPass_antitone n A hA hn hm P hPsz prm sqrt f _ heps _ (FGMRES.head_inv _ _ _ _ _)
-      (by rw [FGMRES.head_x]; exact hx0) k hstop (fun i hi => hroots i (by omega) (hstop i hi)) i j hij hj
+  · exact fouterPass_antitone' n A hA hn hm P hPsz prm sqrt f _ heps _ (FGMRES.head_inv _ _ _ _ _)
+      (by rw [FGMRES.head_x]; exact hx0) k (fun i hi hne => hroots i (by omega) (hstop i hi) hne) i j hij hj
 
 /-- … in particular the `x` an FGMRES call returns has `‖f − A x‖² ≤ ‖f − A x₀‖²` (global root hypothesis `hsqrt`). -/
 theorem fgmres_restart_monotone_call (prm : FGMRES.Params K) (eps : K) (ws : FGMRES.Work K)
     (x0 : Vec K) (hx0 : x0.size = n) (nf : K) (hp : prologueA prm.nsSearch stdIp sqrt eps f = .go nf)
-    (heps : 0 < FGMRES.epsTol prm nf) (hsqrt : ∀ x, 0 ≤ x → sqrt x * sqrt x = x)
+    (heps : ¬ FGMRES.epsTol prm nf < 0) (hsqrt : ∀ x, 0 ≤ x → sqrt x * sqrt x = x)
     (it : ℕ) (res : K) (x : Vec K) (w : FGMRES.Work K)
     (h : FGMRES.solve prm stdIp sqrt eps A P ws f x0 = .ok (it, res, x, w)) :
     stdIp (residual f A x) (residual f A x) ≤ stdIp (residual f A x0) (residual f A x0) := by
   obtain ⟨k, _, hrun, _, hmono⟩ := fgmres_restart_monotone n A hA hn hm P hPsz sqrt f prm eps ws x0 hx0 nf hp heps
-    (fun i _ _ => rootsExact_of_hsqrt .right sqrt hsqrt A P _ _)
+    (fun i _ _ _ => rootsExact_of_hsqrt .right sqrt hsqrt A P _ _)
   rw [FGMRES.solve, hrun] at h
   simp only [Run.toExcept, Except.ok.injEq, Prod.mk.injEq] at h
   have h0 := hmono 0 k (Nat.zero_le k) (Nat.le_refl k)
@@ -515,7 +527,7 @@ example : ∃ k, k ≤ 2 ∧
           (residual fr Ar (fouterPass prmfr Amgcl.rsqrt Ar Pf fr (FGMRES.epsTol prmfr 5) stfr i).x) := by
   obtain ⟨k, hk, _, _, hmono⟩ := fgmres_restart_monotone 2 Ar hAr rfl rfl Pf hPfsz Amgcl.rsqrt fr prmfr
     0 (FGMRES.Work.fresh 2) xr rfl 5 hpfr (by rw [hepsfr]; decide +kernel)
-    (fun i hi _ => by rw [hepsfr]; exact hrootsfr i hi)
+    (fun i hi _ _ => by rw [hepsfr]; exact hrootsfr i hi)
   exact ⟨k, hk, hmono⟩
 
 /-- the numbers: two cycles, `‖f − A x‖² = 25 > 9 > 81/25` -/
